@@ -108,7 +108,7 @@ fn c02_bootstrap_features_draw1() {
     kani::cover!(col[0] != col[1] || col[1] != col[2]);
 }
 
-// @unit class=bounded tier=thorough mem=light bound="n=3,p=3,(1 sample,1 feature) per draw,2 consecutive draws,scripted generator" timeout=600 fns=linfa::dataset::DatasetBase::bootstrap
+// @unit class=bounded tier=quick mem=light bound="n=3,p=3,(1 sample,1 feature) per draw,2 consecutive draws,scripted generator" timeout=600 fns=linfa::dataset::DatasetBase::bootstrap
 #[kani::proof]
 #[kani::unwind(5)]
 #[kani::stub(alloc::fmt::format, fmt_stub)]
